@@ -65,6 +65,76 @@ def wall_value(e: ast.AST, rd: ReachingDefs, at: ast.AST, frame: str, depth: int
     raise AnalysisError(f"contiguous-index bound: unrecognised idiom `{unparse(e)[:80]}` (known: index.min()/max(), replace(hour=..), normalize(), floor('D'))")
 
 
+def _contiguous_frame_outcome(chk, gc):
+    from engine.absint import AbsObj, ModuleEnv, Opaque
+    from engine.pyinterp import Function, Interp, InterpRaised, Stub, Unsupported
+    VALUE_ONLY = {"copy", "sort_index", "rename", "astype", "assign", "infer_objects"}
+    ranges = []
+
+    class RTok(Stub):
+        def __getattr__(self, name):
+            if name.startswith("_"):
+                raise AttributeError(name)
+            return Opaque(f"range.{name}")
+
+    class FTok(Stub):
+        _settable = True
+
+        def __init__(self, ident, ops=()):
+            self.ident, self.ops = ident, tuple(ops)
+
+        @property
+        def index(self):
+            return self.ident if isinstance(self.ident, RTok) else Opaque("input.index")
+
+        def __setitem__(self, k, v):
+            if not isinstance(k, str):
+                raise Unsupported("frame[...] = ... with a key that is not a column")
+
+        def __getitem__(self, k):
+            if isinstance(k, (str, list)):
+                return Opaque("column") if isinstance(k, str) else FTok(self.ident, self.ops)
+            return FTok(self.ident, self.ops + ("row selection",))
+
+        def reindex(self, *a, **k):
+            tgt = a[0] if a else k.get("index")
+            if isinstance(tgt, RTok) and len(a) + len(k) == 1:
+                return FTok(tgt, self.ops)
+            return FTok("something else", self.ops + ("reindex(<not the range>)",))
+
+        def __getattr__(self, name):
+            if name.startswith("_") or name in ("loc", "iloc", "values", "T", "shape", "empty", "columns"):
+                raise AttributeError(name)
+
+            def op(*a, **k):
+                return FTok(self.ident, self.ops if name in VALUE_ONLY else self.ops + (name,))
+            return op
+
+    class PDc(Stub):
+        @staticmethod
+        def date_range(*a, **k):
+            r = RTok()
+            ranges.append(r)
+            return r
+
+        def __getattr__(self, name):
+            if name.startswith("_"):
+                raise AttributeError(name)
+            return Opaque(f"pd.{name}")
+    it = Interp(step_limit=20_000)
+    env = ModuleEnv(chk.repo, gc.module, it, {"pd": PDc(), "pandas": PDc()})
+    me = AbsObj({"_HourlyData"}, tz=Opaque("tz"))
+    try:
+        res = Function(gc.node, env, it)(me, FTok("input"))
+    except InterpRaised as e:
+        return {"raises": e.exc_name}
+    except Unsupported as e:
+        raise AnalysisError(f"{gc.key}: uses an operation outside the modelled subset: {e}")
+    if not isinstance(res, FTok):
+        return {"returns": repr(res)[:60]}
+    return {"index": "the date_range" if (ranges and res.ident is ranges[-1]) else ("the input's" if res.ident == "input" else str(res.ident)), "row_ops": list(res.ops), "ranges": len(ranges)}
+
+
 def check_contiguous_index(chk, rule):
     gc = chk.repo.func(HOURLY_DATA, "_HourlyData._get_contiguous_datetime")
     frame = [p for p in gc.params if p != "self"][0]
@@ -94,47 +164,11 @@ def check_contiguous_index(chk, rule):
         rule.require(ok, f"{gc.key}|{which}", gc.where(dr),
                      f"_get_contiguous_datetime: contiguous index must {'start at 00:00 of the first' if want_ext == 'min' else 'end at 23:00 of the last'} supplied day; "
                      f"found index.{ext}() with wall-clock fields {fields}", sample={"extreme": ext, "fields": fields})
-    # the frame handed back is the input reindexed onto exactly that range (and nothing else changes its rows)
-    rets = [s for s in walk_no_nested(gc.node) if isinstance(s, ast.Return)]
-    ok = bool(rets)
-    row_ops = []
-    for rt in rets:
-        if not isinstance(rt.value, ast.Name):
-            ok = False
-            continue
-        # walk the definitions of the returned name back to the parameter: exactly one reindex(<the range>) on the way
-        name, at, n_reindex, hops = rt.value.id, rt, 0, 0
-        while hops < 8:
-            hops += 1
-            defs = rd.reaching(at, name)
-            if len(defs) != 1:
-                ok = False
-                break
-            d = defs[0]
-            if d.kind == "param":
-                break
-            v, ds = rd.value_of(d), rd.def_stmt(d)
-            if isinstance(v, ast.Call) and isinstance(v.func, ast.Attribute) and isinstance(v.func.value, ast.Name):
-                if v.func.attr == "reindex" and len(v.args) == 1 and not v.keywords:
-                    a = v.args[0]
-                    src = a
-                    if isinstance(a, ast.Name):
-                        ad = rd.reaching(ds, a.id)
-                        src = rd.value_of(ad[0]) if len(ad) == 1 else None
-                    if src is dr:
-                        n_reindex += 1
-                    else:
-                        ok = False
-                elif v.func.attr in ("copy", "sort_index"):
-                    pass
-                else:
-                    row_ops.append(unparse(v)[:60])
-                name, at = v.func.value.id, ds
-            else:
-                ok = False
-                break
-        ok = ok and n_reindex == 1 and not row_ops
-    rule.require(ok, f"{gc.key}|reindex", gc.where(), f"_get_contiguous_datetime must return its input reindexed onto the contiguous hourly range and nothing else {row_ops or ''}")
+    # the frame handed back is the input reindexed onto exactly that range (and nothing else changes its rows): interpreted on frames
+    # that only know which index they carry
+    out = _contiguous_frame_outcome(chk, gc)
+    ok = out.get("index") == "the date_range" and not out.get("row_ops") and out.get("ranges") == 1
+    rule.require(ok, f"{gc.key}|reindex", gc.where(), f"_get_contiguous_datetime must return its input reindexed onto the contiguous hourly range and nothing else; interpreted: {out}")
     sd, outs = set_data_outcomes(chk)
     msgs = [m for o in outs for ob, m in judge_set_data(o) if ob == "order"]
     rule.require(not msgs, f"{sd.key}|order", sd.where(), "_set_data must de-duplicate, then build the contiguous index, then interpolate: " + (msgs[0] if msgs else ""))
@@ -144,9 +178,12 @@ def check_contiguous_index(chk, rule):
 def set_data_outcomes(chk):
     """_HourlyData._set_data interpreted on recording values: what is returned (the pipeline as a term) and which in-place stores are
     made, for electricity / non-electricity data and both outcomes of every data-dependent test."""
-    from engine.absint import AbsObj, ModuleEnv, Oracle, Sym, SymWorld, canon, explore, sym_root
+    from engine.absint import AbsObj, BoundRepoMethods, ModuleEnv, Oracle, Sym, SymWorld, canon, explore, sym_root
     from engine.pyinterp import Function, Interp, InterpRaised, Stub, StubCall, Unsupported
     sd = chk.repo.func(HOURLY_DATA, "_HourlyData._set_data")
+
+    class _Me(AbsObj, BoundRepoMethods):
+        pass
     outs = []
 
     class _Cols(Stub):
@@ -192,13 +229,14 @@ def set_data_outcomes(chk):
                     calls.append(name)
                     return Sym(w, "call", sym_root(w, name), (x,), ())
                 return f
-            me = AbsObj({"_HourlyData"}, is_electricity_data=electric, warnings=[], disqualification=[], tz=None, _kwargs={}, _outputs=[])
+            it = Interp(step_limit=50_000)
+            me = _Me({"_HourlyData"}, is_electricity_data=electric, warnings=[], disqualification=[], tz=None, _kwargs={}, _outputs=[])
             for nm in ("_get_contiguous_datetime", "_interpolate", "_add_pv_start_date"):
                 setattr(me, nm, StubCall(step(nm)))
-            it = Interp(step_limit=50_000)
             stand = {"pd": pd_, "np": np_, "remove_duplicates": StubCall(step("remove_duplicates")), "EEMeterWarning": StubCall(lambda **k: k.get("qualified_name"))}
             for nm in ("_get_contiguous_datetime", "_interpolate", "_add_pv_start_date"):
                 stand[nm] = StubCall(step(nm))  # the steps may also be module-level functions
+            me._bind_repo(chk, chk.repo.cls(HOURLY_DATA, "_HourlyData"), it, stand)   # any other method of the class: the repository's own, interpreted
             env = ModuleEnv(chk.repo, sd.module, it, stand)
             try:
                 r = Function(sd.node, env, it)(me, data)
